@@ -26,6 +26,14 @@ CLASSES = {
 }
 
 
+def _real_step(ds):
+    """the real `DistributedShampoo.step` function body: torch.optim.Optimizer.__init__ patches the CLASS attribute `step` with a
+    profiling/hook wrapper the first time any optimizer is constructed in the process; the harness object is a bare instance
+    without hook tables, so the wrapper (functools.wraps) is peeled off and the original function is called."""
+    import inspect
+    return inspect.unwrap(ds.DistributedShampoo.step)
+
+
 def _cls(name):
     import importlib
     m, c, g = CLASSES[name]
@@ -159,7 +167,7 @@ def run_trace_step(case):
             opt._per_group_step = lambda *a: calls.append(1)
             assume(z3.Int("t0") >= 0)
             with rebind([(ds, "torch", FakeTorch())]):
-                opt.step()
+                _real_step(ds)(opt)
             entered.append(len(calls))
         return entered
 
